@@ -25,6 +25,7 @@ import (
 	"math/big"
 	"os"
 	"sort"
+	"sync"
 	"strings"
 
 	"github.com/blinklabs-io/gouroboros/ledger/alonzo"
@@ -386,7 +387,10 @@ func main() {
 	eras := []int{EraMary, EraAlonzo, EraBabbage, EraConway, EraDijkstra}
 	perKey := map[string]map[string]bool{}
 	table := map[string]map[string]int{} // era -> outcome -> count
+	var recMu sync.Mutex
 	record := func(env *EraEnv, k caseT, variant string, res result, txb []byte) {
+		recMu.Lock()
+		defer recMu.Unlock()
 		outcome := "rejected-by-decoder"
 		if res.decoded {
 			outcome = "rejected-by-rules"
@@ -418,6 +422,11 @@ func main() {
 				map[string]any{"era": k.era, "form": k.form, "shape": k.shape, "enc": k.enc, "q": k.q.String(), "variant": variant, "tx_cbor": hex.EncodeToString(txb)})
 		}
 	}
+	type job struct {
+		env *EraEnv
+		k   caseT
+	}
+	var jobs []job
 	for _, era := range eras {
 		env := NewEraEnv(era)
 		realisticPP(env)
@@ -457,27 +466,28 @@ func main() {
 							(q.Cmp(big.NewInt(1)) == 0 && sh == shapeUnfunded && enc == encInt && era == EraMary) || (q.Cmp(two64) == 0 && sh == shapeInputs && enc == encBig && era == EraConway && form == formMap) {
 							c.Sample(map[string]any{"case": k.String(), "tx_cbor": hex.EncodeToString(txb), "decoded": res.decoded, "decode_error": res.decErr, "rule_errors": res.ruleErrs, "decoded_quantities": res.decQs, "accepted": res.accepted})
 						}
-						if !c.Thorough() {
-							continue
+						if c.Thorough() {
+							jobs = append(jobs, job{env, k})
 						}
-						// thorough: every single header-form change (d=1) inside the outputs array of this case, re-signed
-						spec, stub, wireQs, _ := w.build(k)
-						outs := space.A(spec.Outputs...)
-						space.EnumD1(outs, space.Sites(outs, nil), func(v space.Variant) bool {
-							// the forms are changed in place on the nodes shared with spec.Outputs; the outer array's own form is applied below
-							sp := *spec
-							if outs.Form != space.FormMin {
-								sp.OutputsForm = outs.Form
-							}
-							r2, b2 := w.runSpec(env, k, &sp, stub, wireQs)
-							record(env, k, v.Desc, r2, b2)
-							return true
-						})
 					}
 				}
 			}
 		}
 	}
+	// thorough: every single header-form change (d=1) inside the outputs array of every case, re-signed
+	vlib.Parallel(len(jobs), func(i int) {
+		env, k := jobs[i].env, jobs[i].k
+		spec, stub, wireQs, _ := w.build(k)
+		outs := space.A(spec.Outputs...)
+		space.EnumD1(outs, space.Sites(outs, nil), func(v space.Variant) bool {
+			// forms are changed in place on the nodes shared with spec.Outputs; the outer array's own form is carried over
+			sp := *spec
+			sp.OutputsForm = outs.Form
+			r2, b2 := w.runSpec(env, k, &sp, stub, wireQs)
+			record(env, k, v.Desc, r2, b2)
+			return true
+		})
+	})
 	c.Set("outcomes_by_era", table)
 	if len(perKey) > 0 {
 		m := map[string][]string{}
